@@ -173,6 +173,8 @@ pub trait GenObj: Send {
     /// `Clone::clone_from`: a generator that was first fed `pre` (any state) and is then
     /// overwritten by `dst.clone_from(self)`.
     fn boxed_clone_from(&self, pre: &[u8]) -> Box<dyn GenObj>;
+    /// `Clone::clone_from` into a generator made (hook) from the given state; None without hooks.
+    fn boxed_clone_from_state(&self, dst: &GenState) -> Option<Box<dyn GenObj>>;
     /// Hook: read the state back (None without hooks).
     fn state(&self) -> Option<GenState>;
 }
@@ -243,6 +245,12 @@ pub trait VariantApi: Sync {
     fn from_postcard(&self, s: &[u8]) -> Option<Result<H, String>>;
     fn mock_ser(&self, h: &dyn HashObj, human: bool) -> Option<SerRecord>;
     fn mock_de(&self, script: &crate::mockserde::DeScript) -> Option<Result<H, String>>;
+    /// Allocator calls made during `T::deserialize(mock)` alone (mock errors rendered quietly):
+    /// (accepted, allocator calls).
+    fn mock_de_allocs(&self, script: &crate::mockserde::DeScript) -> Option<(bool, u64)>;
+    /// `Deserialize::deserialize_in_place` into an existing value (what containers use when they
+    /// reload in place); the place starts as the hash with binary form `initial`.
+    fn mock_de_in_place(&self, script: &crate::mockserde::DeScript, initial: &[u8]) -> Option<Result<H, String>>;
     // --- allocation-free executor (C18); see `noalloc`
     fn noalloc_exec(&self, prog: &crate::noalloc::Program, rep: &mut crate::noalloc::Report);
 }
